@@ -48,6 +48,7 @@ def main():
     try:
         lean.build_driver()
         lean.build_and_audit(pid, pre_build=getattr(mod, "pre_build", None))
+        lean.build_srcdriver()
         if tier == "thorough" and lean.proofs_ok:
             common_leanchecker(lean, pid)
         import fingerprint
@@ -59,6 +60,8 @@ def main():
         ctx.dist["source_gate_changed_definitions"] = len(gate)
         try:
             mod.run(ctx)
+            import srcval
+            srcval.validate(ctx, pid)
             if gate and not ctx.violations and not ctx.disagreements and hasattr(mod, "search"):
                 # changed code that still agrees with the model on the ordinary stream: look further before passing
                 saved = (ctx.rng, ctx.oracle_only)
